@@ -76,7 +76,8 @@ def generate(seed, tier="quick"):
     return {"prop": PROPERTY, "shape": shape, "ops": ops, "trains": trains, "order": order,
             "steps": None if dw.ref.externals and o.random() < 0.5 else o.randint(3, 14), "dt": o.choice(DTS),
             "solver": o.choice(["bwd_euler", "bwd_euler", "crank_nicolson"]), "vsolver": o.choice(["jaxley.stone", "jaxley.thomas", "jax.sparse"]),
-            "mode": o.choice(["eager", "eager", "jit"]), "persist_after": o.choice([None, None, 0, 1]), "persist_how": o.choice(["pickle", "deepcopy"])}
+            "mode": o.choice(["eager", "eager", "jit"]), "persist_after": o.choice([None, None, 0, 1]), "persist_how": o.choice(["pickle", "deepcopy"]),
+            "edits_before_write": o.choice([0, 1, 2]), "edit_seed": o.randrange(1 << 30)}
 
 
 def build(program, order, persist=True):
@@ -259,6 +260,17 @@ def execute(program):
         w.violate("param_paths_equal", f"set / data_set path raised {exc_text(e)} while params= simulated", nidx)
         return res()
     w.bump("oracle_paths")
+    # the same param_state object fed to a second simulation must give the same result (data_set is functional)
+    try:
+        outC2 = integ(w, base, program, param_state=ps)
+    except HarnessError:
+        raise
+    except Exception as e:  # noqa: BLE001
+        w.violate("param_paths_equal", f"re-using a param_state raised {exc_text(e)}", nidx, {"paths": "data_set_reuse"})
+        return res()
+    if not np.array_equal(outC, outC2, equal_nan=True):
+        w.violate("param_paths_equal", f"feeding the same param_state to a second integrate changes the result by {simrun.maxdiff(outC, outC2):.3e}", nidx, {"paths": "data_set_reuse"})
+        return res()
     if not simrun.close(outA[mask], outB[mask], **TOL_SAME):
         w.violate("param_paths_equal", f"params= differs from set() by {simrun.maxdiff(outA[mask], outB[mask]):.3e}", nidx, {"paths": "params_vs_set"})
         return res()
@@ -293,7 +305,23 @@ def execute(program):
                 return res()
     elif overlap:
         w.bump("probe_overlapping_trainables")
-    # ---- (D) write_trainables round trip
+    # ---- (D) write_trainables round trip — after a further edit of the tables (history): rows and keys not covered by
+    #      the trainables are edited *between* the last integrate and write_trainables; they must keep the edited value
+    edits = []
+    es = stream(program.get("edit_seed", 1), "edits")
+    for j in range(program.get("edits_before_write", 0)):
+        cand = sorted(set(list(touched)) | {"radius", "v"}) + [c for c in ref.edge_columns()]
+        key = es.choice(cand)
+        if key in ref.cols:
+            view = [["select_nodes", {"t": "list", "v": [es.randrange(64) for _ in range(es.randint(1, 3))]}]]
+        else:
+            view = [["select_edges", {"t": "int", "v": es.randrange(64)}]]
+        edits.append({"op": "set", "view": view, "key": key, "val": {"seed": es.randrange(1 << 30)}})
+    for j, op in enumerate(edits):
+        apply_op(w, op, nidx + j)
+    if w.violations or w.stopped:
+        return res()
+    # values the trainables write are re-applied by the model on top of the edited tables
     try:
         with quiet():
             m.write_trainables(params)
@@ -318,13 +346,13 @@ def execute(program):
     except Exception as e:  # noqa: BLE001
         w.violate("write_trainables_roundtrip", f"integrate after write_trainables raised {exc_text(e)}", nidx)
         return res()
-    if not simrun.close(outA[mask], outD[mask], **TOL_SAME):
+    if not edits and not simrun.close(outA[mask], outD[mask], **TOL_SAME):
         w.violate("write_trainables_roundtrip", f"plain integrate after write_trainables differs from params= by {simrun.maxdiff(outA[mask], outD[mask]):.3e}", nidx)
     return res()
 
 
 def simplify(program):
-    for field, simple in (("solver", "bwd_euler"), ("dt", 0.025), ("mode", "eager"), ("vsolver", "jax.sparse"), ("persist_after", None)):
+    for field, simple in (("solver", "bwd_euler"), ("dt", 0.025), ("mode", "eager"), ("vsolver", "jax.sparse"), ("persist_after", None), ("edits_before_write", 0)):
         if program.get(field) != simple:
             q = copy.deepcopy(program)
             q[field] = simple
